@@ -81,7 +81,7 @@ func newGraph(rep string, n int, ranks []int) graph.EditableGraph {
 	if rep == "dense" {
 		edges := make([]byte, n*(n-1)/2)
 		for _, r := range ranks {
-			edges[r] = 1
+			edges[r] = []byte{1, 2, 255, 1}[r%4] // NewDense: any non-zero byte is an edge (e.g. the coloured arrays ChromaticIndex returns)
 		}
 		return graph.NewDense(n, edges)
 	}
